@@ -455,7 +455,8 @@ Section Rel.
   Qed.
 
   (** * The closure language.  [raw_ok]: may the instance also relate the non-skipping
-        primitives and the unbounded look-ahead of the statement-loop probe? *)
+        primitives and the unbounded look-ahead of the statement-loop probe?  ([PBlock], whose
+        look-ahead is five [peek_nth_token], needs no such licence: it is skipping-only.) *)
   Variable raw_ok : bool.
   Hypothesis F_next_ns : raw_ok = true -> Rel (opt_rel Rt) next_token_no_skip next_token_no_skip.
   Hypothesis F_peek_ns : raw_ok = true -> forall n, Rel Rt (peek_nth_token_no_skip n) (peek_nth_token_no_skip n).
@@ -516,6 +517,37 @@ Section Rel.
     - rewrite E1, E2. apply rel_ret. constructor. exact Ht.
   Qed.
 
+  Lemma plain_word_sim t t' : Rt t t' -> plain_word (tok t) = plain_word (tok t').
+  Proof. intro H. destruct (f_obs F t t' H) as [->|(v & v' & k0 & -> & -> & _)]; reflexivity. Qed.
+  Lemma rel_create_procedure fuel : Rel RV (create_procedure fuel) (create_procedure fuel).
+  Proof.
+    unfold create_procedure.
+    eapply rel_bind_unit; [apply (f_next F)|].
+    eapply rel_bind_unit; [apply rel_consume_token; apply (f_cmp_punct F)|].
+    eapply rel_bind_unit; [apply rel_consume_token; apply (f_cmp_punct F)|].
+    eapply rel_bind_unit; [apply rel_expect_keyword|].
+    eapply rel_bind_unit; [apply rel_expect_keyword|].
+    eapply rel_bind; [unfold parse_statement_block; apply rel_statements_loop; [apply rel_stmt_core|constructor]|].
+    intros l l' Hl. eapply rel_bind_unit; [apply rel_expect_keyword|apply rel_ret; constructor; exact Hl].
+  Qed.
+  (** The block probe looks five non-whitespace tokens ahead and no further: it is related to
+      itself by every instance (no [raw_ok] needed, unlike the unbounded look-ahead of [stmts_probe]). *)
+  Lemma rel_block_probe fuel : Rel RV (block_probe fuel) (block_probe fuel).
+  Proof.
+    unfold block_probe.
+    eapply rel_bind; [apply (f_peek F)|]. intros t0 t0' H0.
+    eapply rel_bind; [apply (f_peek F)|]. intros t1 t1' H1.
+    eapply rel_bind; [apply (f_peek F)|]. intros t2 t2' H2.
+    eapply rel_bind; [apply (f_peek F)|]. intros t3 t3' H3.
+    eapply rel_bind; [apply (f_peek F)|]. intros t4 t4' H4.
+    unfold block_header.
+    rewrite (is_kw_sim (s2l "CREATE") t0 t0' H0), (is_kw_sim (s2l "PROCEDURE") t1 t1' H1), (plain_word_sim t2 t2' H2),
+            (is_kw_sim (s2l "AS") t3 t3' H3), (is_kw_sim (s2l "BEGIN") t4 t4' H4).
+    apply rel_if; [|apply rel_ret; constructor].
+    apply rel_guard. eapply rel_bind_unit; [apply (f_next F)|].
+    eapply rel_bind_unit; [apply rel_parse_keyword|]. apply rel_create_procedure.
+  Qed.
+
   Lemma opt_to_val o o' : opt_rel RV o o' -> RV (VOpt o) (VOpt o').
   Proof. destruct o, o'; cbn; intro H; try contradiction; constructor; assumption. Qed.
 
@@ -565,6 +597,7 @@ Section Rel.
     - apply rel_with_state. apply IHp; assumption.
     - eapply rel_bind; [apply rel_projection; apply IHp; assumption|]. intros. apply rel_ret. constructor. assumption.
     - exact Hself.
+    - apply rel_block_probe.
   Qed.
 
   Theorem denote_rel rr fuel p :
